@@ -46,6 +46,30 @@ fn giant(kind: u64) -> (Sprite, &'static str) {
             }
             (sp, "65535-tags")
         }
+        3 => {
+            // both dimensions of the cel table beyond 256, with links into late frames
+            let n = 300usize;
+            let mut sp = Sprite::blank(2, 2, Fmt::Rgba, n);
+            for i in 0..n {
+                let mut l = LayerM::image(&format!("L{}", i % 97));
+                l.opacity = (i % 256) as u8;
+                sp.layers.push(l);
+            }
+            for l in 0..n as u16 {
+                let target = 256 + (l % 40);
+                sp.cels.insert((target, l), CelM { x: (l % 2) as i16, y: 0, opacity: (l % 251) as u8, content: CelContentM::Image { w: 1, h: 1, pixels: vec![l as u8, (l >> 8) as u8, 7, 255] }, ud: None });
+                let from = if l % 3 == 0 { 299 - (l % 2) } else { l % 200 };
+                if from != target {
+                    let t = sp.cels[&(target, l)].clone();
+                    sp.cels.insert((from, l), CelM { x: t.x, y: t.y, opacity: t.opacity, content: CelContentM::Link(target), ud: None });
+                }
+                // a plain cel early on as well
+                if l % 5 == 0 {
+                    sp.cels.insert((l % 7 + 200, l), CelM { x: 0, y: 1, opacity: 255, content: CelContentM::Image { w: 1, h: 1, pixels: vec![9, l as u8, 9, 200] }, ud: None });
+                }
+            }
+            (sp, "300x300-links")
+        }
         _ => {
             let mut sp = Sprite::blank(2, 2, Fmt::Rgba, 1);
             for i in 0..4096u32 {
@@ -130,13 +154,17 @@ pub fn run(ctx: &Ctx) -> i32 {
     });
     // structural giants (sequential: each is large)
     let mut gctx = ctx.clone();
-    gctx.threads = 3;
-    let giants = run_stage(&gctx, "giants", 3, |k| {
-        let (sp, name) = giant(k);
+    gctx.threads = 4;
+    let giants = run_stage(&gctx, "giants", 4, |k| {
+        let (sp, name) = giant(if k == 3 { 3 } else if k == 2 { 99 } else { k });
         let mut rng = Rng::derive(ctx.seed, "C01-giant", k);
         let mut o = ObsOpts::no_images();
-        if k == 0 {
+        if k == 0 || k == 3 {
             o.cels = true;
+        }
+        if k == 3 {
+            o.cel_images = true;
+            o.frame_images = true;
         }
         let (_b, leaves, viol) = roundtrip(&sp, &PaletteProgram::Auto, &mut rng, &Variation::none(), &o, name);
         let mut res = CaseResult::ok(gen::features(&sp), leaves, &format!("giant:{}", name));
@@ -152,7 +180,7 @@ pub fn run(ctx: &Ctx) -> i32 {
         sum,
         Finish {
             rule: "PRNG-generated well-formed sprite models (all three formats, layer forests, attribute extremes) each encoded under a random spec-conformant chunk program; distinct = distinct model feature hash (canvas, layers, cels, pixels, attribute counts); every model is non-trivial (>=1 layer, >=1 frame)".into(),
-            coverage_extra: json!({"programs_per_model": programs_per_model, "giants": ["65535 frames", "65535 tags", "4096 layers"]}),
+            coverage_extra: json!({"programs_per_model": programs_per_model, "giants": ["65535 frames", "65535 tags", "4096 layers", "300 layers x 300 frames with links into frames >= 256"]}),
             assumptions: vec!["the harness encoder writes the format as the Aseprite file spec describes it (cross-checked against the GUI-produced corpus by the C07/C13 corpus walks)".into()],
             exhaustive: false,
             min_evaluations: 100,
